@@ -281,14 +281,7 @@ func evaluate(c *rig.Ctx, cases []Case) {
 				}
 				if f != nil {
 					c.Count("failure:" + f.class)
-					if f.class == classRacedAck {
-						// a recorded finding: one minimised witness is enough, and it does not stop the search
-						if racedSeen.Add(1) > 1 {
-							continue
-						}
-					} else {
-						unexpected.Add(1)
-					}
+					unexpected.Add(1)
 					small := shrink(c, cs, f.class)
 					f2 := evalCase(c, small)
 					if f2 == nil || f2.class != f.class {
@@ -306,7 +299,7 @@ func evaluate(c *rig.Ctx, cases []Case) {
 	wg.Wait()
 }
 
-var unexpected, racedSeen atomic.Int32
+var unexpected atomic.Int32
 
 func generate(c *rig.Ctx) {
 	n := c.Budget(1200, 30000)
